@@ -8,6 +8,16 @@ import (
 	"wa-lang.org/wa/internal/wat/token"
 )
 
+// hasExportField reports whether printExport writes an (export ...) field for this export.
+func (p *watPrinter) hasExportField(kind token.Token, name string) bool {
+	for _, e := range p.m.Exports {
+		if e.Kind == kind && e.Name == name && (e.FuncIdx != "" || e.GlobalIdx != "") {
+			return true
+		}
+	}
+	return false
+}
+
 func (p *watPrinter) printExport() error {
 	if len(p.m.Exports) == 0 {
 		return nil
@@ -15,11 +25,19 @@ func (p *watPrinter) printExport() error {
 	for _, e := range p.m.Exports {
 		switch e.Kind {
 		case token.GLOBAL:
+			if e.GlobalIdx == "" {
+				continue // anonymous global: its export is printed inline with the global
+			}
 			fmt.Fprintf(p.w, `%s(export "%s" (global %s))`+"\n",
 				p.indent, e.Name, watPrinter_identOrIndex(e.GlobalIdx),
 			)
 		case token.FUNC:
-			// skip
+			if e.FuncIdx == "" {
+				continue // anonymous function: its export is printed inline with the function
+			}
+			fmt.Fprintf(p.w, `%s(export %q (func %s))`+"\n",
+				p.indent, e.Name, watPrinter_identOrIndex(e.FuncIdx),
+			)
 		case token.MEMORY:
 			fmt.Fprintf(p.w, `%s(export "%s" (memory %s))`+"\n",
 				p.indent, e.Name, watPrinter_identOrIndex(e.MemoryIdx),
